@@ -14,6 +14,9 @@ import (
 // C18 — data URI and media type helpers (claimed in part: the structural clauses only).
 
 func init() {
+	mutant(&Mutant{Name: "c18-length-count-stops-on-a-tie", Property: "C18", File: "common.go",
+		Old: "\t\tif asciiLen > base64Len {\n\t\t\tbreak\n", New: "\t\tif base64Len <= asciiLen {\n\t\t\tbreak\n",
+		Rule: "R18.10", Construct: "early exit#1 of the length count"})
 	mutant(&Mutant{Name: "c18-base64-encoded-over-its-own-source", Property: "C18", File: "common.go",
 		Old: "encoded := make([]byte, base64Len-len(\";base64\"))", New: "encoded := dataURI[:base64Len-len(\";base64\")]",
 		Rule: "R18.9", Construct: "is fresh memory"})
@@ -214,6 +217,8 @@ func runC18(c *Ctx) {
 	})
 	c.r187()
 	c.r189()
+	c.r1810()
+	c.r1111("R18.11")
 }
 
 // R18.7 / R18.8: Mediatype finds the quoted strings and leaves them alone.
